@@ -1,6 +1,9 @@
 // Helper for C07 (crash safety of the history store).  It runs the REAL internal/persistence/jsondb.
 //
-//	crash run  <datadir> <scenario.json> <phase>    execute the ops of the given phase ("prior" | "victim" | "after") in order
+//	crash run  <datadir> <scenario.json> <phase> [<fsize>]   execute the ops of the given phase ("prior" | "victim" | "after") in order;
+//	                                                with <fsize>: RLIMIT_FSIZE is lowered to that many bytes first and SIGXFSZ left at its
+//	                                                default, so that the KERNEL kills the process inside the write(2) that would grow a file
+//	                                                beyond the limit - a real partial write (short write, then the signal)
 //	crash dump <datadir> <scenario.json>            fresh process: directory dump + the three queries for every name (JSON on stdout)
 //
 // run: the OS thread is locked, so that every store system call is issued by ONE thread in program order; before the first op it
@@ -17,11 +20,13 @@ import (
 	"io"
 	"log"
 	"os"
+	"os/signal"
 	"path/filepath"
 	"runtime"
 	"sort"
 	"strconv"
 	"strings"
+	"syscall"
 	"time"
 
 	"github.com/ErdemOzgen/blackdagger/internal/persistence"
@@ -58,6 +63,13 @@ func mkStatus(req string, tag int, big bool) *model.Status {
 func tagOf(st *model.Status) int { t, _ := strconv.Atoi(st.Name); return t }
 
 func prefixOf(d string) string { return strings.TrimSuffix(filepath.Base(d), filepath.Ext(d)) }
+
+// fsizeMode: the run is under a lowered RLIMIT_FSIZE.  The Go runtime does not die of SIGXFSZ (it is a
+// notify-only signal for it), so the write(2) that hits the limit is cut short by the kernel, the retry
+// fails with EFBIG and the store operation returns an error; the helper then kills itself at once, before
+// anything else (no ACK, no deferred cleanup) - the surviving directory is the one of a process that died
+// inside that write.
+var fsizeMode bool
 
 func run(dir string, sc *Scenario, phase string) {
 	runtime.LockOSThread()
@@ -106,6 +118,10 @@ func run(dir string, sc *Scenario, phase string) {
 		}
 		r := "ok"
 		if err != nil {
+			if fsizeMode {
+				_ = syscall.Kill(syscall.Getpid(), syscall.SIGKILL)
+				select {}
+			}
 			r = "err"
 		}
 		_, _ = os.Stdout.Write([]byte(fmt.Sprintf("ACK %d %s\n", i, r)))
@@ -245,6 +261,17 @@ func main() {
 	}
 	switch mode {
 	case "run":
+		if len(os.Args) > 5 {
+			k, err := strconv.ParseUint(os.Args[5], 10, 64)
+			if err != nil {
+				panic(err)
+			}
+			signal.Reset(syscall.SIGXFSZ)
+			fsizeMode = true
+			if err := syscall.Setrlimit(syscall.RLIMIT_FSIZE, &syscall.Rlimit{Cur: k, Max: k}); err != nil {
+				panic(err)
+			}
+		}
 		run(dir, &sc, os.Args[4])
 	case "dump":
 		dump(dir, &sc)
